@@ -44,6 +44,8 @@ Start(e) ==
                                  /\ \A j \in Known : st[j] = "queued" => j >= e.id   \* older ones are resolved
          [] H(tid).mode = "s" -> (e.id = S \/ e.t = arr[e.id])                       \* at once
     /\ UNCHANGED <<arr, ehow, res, outv, guarding, phase, stopT>>
+(* how: ok | fail | cancelled (by the block) | selfcancel (the user's coroutine ended     *)
+(* with a CancelledError of its own: reported as cancelled, the block carries on)         *)
 End(e) == /\ st[e.id] = "running"
           /\ (e.how = "cancelled" => (H(tid).mode = "c" /\ NewerKnown(e.id)))   \* only for a newer event
           /\ st' = [st EXCEPT ![e.id] = "ended"] /\ ehow' = [ehow EXCEPT ![e.id] = e.how]
@@ -53,7 +55,7 @@ Res(e) == /\ arr[e.id] # NONE /\ res[e.id] = "none" /\ e.same             \* exa
           /\ res' = [res EXCEPT ![e.id] = e.kind]
           /\ \/ /\ e.kind = "success" /\ st[e.id] = "ended" /\ ehow[e.id] = "ok" /\ UNCHANGED st
              \/ /\ e.kind = "error" /\ st[e.id] = "ended" /\ ehow[e.id] = "fail" /\ UNCHANGED st
-             \/ /\ e.kind = "cancel" /\ st[e.id] = "ended" /\ ehow[e.id] = "cancelled" /\ UNCHANGED st
+             \/ /\ e.kind = "cancel" /\ st[e.id] = "ended" /\ ehow[e.id] \in {"cancelled", "selfcancel"} /\ UNCHANGED st
              \/ /\ e.kind = "cancel" /\ st[e.id] = "queued"                        \* discarded
                 /\ H(tid).mode = "c" /\ NewerKnown(e.id)
                 /\ st' = [st EXCEPT ![e.id] = "discarded"]
